@@ -167,6 +167,11 @@ func addTarget(graph *core.BuildGraph, m targetMap, target *core.BuildTarget) {
 	}
 	log.Debug("  %s", target.Label)
 	m[target] = true
+	if sibling := gcSibling(graph, target); sibling != target {
+		// Siblings share a fate; if this one is needed then the other must be kept too,
+		// otherwise we'd propose removing both.
+		addTarget(graph, m, sibling)
+	}
 	for _, dep := range target.DeclaredDependencies() {
 		addTarget(graph, m, graph.Target(dep))
 	}
